@@ -119,4 +119,73 @@ def run (c : Cfg) : St → List In → St × List Nat
     let r' := run c r.1 is
     (r'.1, r.2 ++ r'.2)
 
+/-! ## The start of `AggregationLoop` (aggregation.go:11-33)
+
+```go
+if height < initialHeight { delay = time.Until(genesis.GenesisDAStartTime.Add(BlockTime)) }
+else                      { delay = time.Until(m.getLastBlockTime().Add(BlockTime)) }
+if delay > 0 { select { case <-ctx.Done(): return; case <-time.After(delay): } }
+blockTimer := time.NewTimer(0) …            // then the lazy / normal loop
+```
+
+The wait is a `select` on the context and ONE timer: `txNotifyCh` is not a case of it, so a call of
+`NotifyNewTransactions` during the wait only fills the one-slot channel, where it is still pending
+when the loop proper starts (`enter`).  Nothing is produced during the wait. -/
+
+/-- the instant the wait refers to: genesis time while nothing has been produced
+(`height < initialHeight`), the time of the last block otherwise. -/
+def startRef (height initialHeight genesisT lastT : Nat) : Nat :=
+  if height < initialHeight then genesisT else lastT
+
+/-- `delay = time.Until(ref.Add(BlockTime))` evaluated at `now`; `if delay > 0` is the clipping of
+the subtraction of naturals. -/
+def startDelay (c : Cfg) (ref now : Nat) : Nat := ref + c.block - now
+
+/-- `AggregationLoop` from its first line: in the start-up wait (`wake` = deadline of
+`time.After(delay)`, `chan` = `len(m.txNotifyCh) = 1`) or in the lazy / normal loop. -/
+inductive Sys
+  | waiting (now wake : Nat) (chan : Bool)
+  | running (s : St)
+  deriving Repr, DecidableEq, BEq
+
+/-- the loop proper starts: `time.NewTimer(0)` twice at `now`, `txsAvailable` false, the channel as
+the wait left it. -/
+def enter (now : Nat) (chan : Bool) : St :=
+  { now := now, lazyT := now, blockT := now, txs := false, chan := chan, flight := none }
+
+/-- `AggregationLoop` called at `t0` with reference instant `ref` (see `startRef`). -/
+def boot (c : Cfg) (ref t0 : Nat) : Sys := .waiting t0 (t0 + startDelay c ref t0) false
+
+def Sys.now : Sys → Nat
+  | .waiting now _ _ => now
+  | .running s => s.now
+
+def sysStep (c : Cfg) : Sys → In → Sys × List Nat
+  | .waiting now wake _, .notify => (.waiting now wake true, [])
+  | .waiting now wake chan, .tick _ _ =>
+    if now < wake then (.waiting (now + 1) wake chan, [])   -- blocked in the start-up `select`
+    else (.running (enter now chan), [])                     -- `time.After` fired / no delay
+  | .running s, i => let r := step c s i; (.running r.1, r.2)
+
+def sysRun (c : Cfg) : Sys → List In → Sys × List Nat
+  | s, [] => (s, [])
+  | s, i :: is =>
+    let r := sysStep c s i
+    let r' := sysRun c r.1 is
+    (r'.1, r.2 ++ r'.2)
+
+/-- what the loop would be if `txNotifyCh` were a case of the start-up `select` (which is not in a
+`for`): a notification ends the wait.  Not the code; used by `Spec.C17.startup_wait_must_ignore_notifications`. -/
+def sysStepEager (c : Cfg) : Sys → In → Sys × List Nat
+  | .waiting now _ true, .tick _ _ =>
+    (.running { enter now false with txs := true }, [])
+  | s, i => sysStep c s i
+
+def sysRunEager (c : Cfg) : Sys → List In → Sys × List Nat
+  | s, [] => (s, [])
+  | s, i :: is =>
+    let r := sysStepEager c s i
+    let r' := sysRunEager c r.1 is
+    (r'.1, r.2 ++ r'.2)
+
 end Lazy
